@@ -619,12 +619,32 @@ func (fx *FuncCtx) localsEnv(st *State, cur, old map[string]string) *SpecEnv {
 			env.vars[a.Comment] = cell
 		}
 	}
+	// while the body of an uncontracted helper is executed in place, its named locals are visible to ghost code too
+	// (statements moved into a helper keep their ghost blocks working); names of the function itself win
+	if len(st.frames) > 0 {
+		active := map[*ssa.Function]bool{}
+		for _, f := range st.frames {
+			active[f.fn] = true
+		}
+		for v, cell := range st.cells {
+			if a, ok := v.(*ssa.Alloc); ok && active[a.Parent()] && a.Comment != "" && !strings.Contains(a.Comment, "$") && !strings.Contains(a.Comment, " ") {
+				if _, dup := env.vars[a.Comment]; dup {
+					continue
+				}
+				if _, isParam := fx.paramVals[a.Comment]; isParam {
+					continue
+				}
+				env.vars[a.Comment] = cell
+			}
+		}
+	}
 	return env
 }
 
 func (fx *FuncCtx) loopArrive(st *State, b *ssa.BasicBlock, phase string) {
 	k, ls := fx.loopSpec(b)
 	env := fx.localsEnv(st, st.heap, map[string]string{})
+	fx.bindLoopIndex(env, st, b)
 	for i, inv := range ls.Invs {
 		label := inv.Name
 		if label == "" {
@@ -758,6 +778,7 @@ func (fx *FuncCtx) loopHavoc(st *State, b *ssa.BasicBlock) {
 	k, ls := fx.loopSpec(b)
 	_ = k
 	env := fx.localsEnv(st, st.heap, map[string]string{})
+	fx.bindLoopIndex(env, st, b)
 	for _, inv := range ls.Invs {
 		var side []string
 		env.side = &side
@@ -796,6 +817,106 @@ func (fx *FuncCtx) optionalTerm(env *SpecEnv, inv Clause) (t string, ok bool) {
 func isIntegerType(t types.Type) bool {
 	b, ok := t.Underlying().(*types.Basic)
 	return ok && b.Info()&types.IsInteger != 0 && b.Info()&types.IsUnsigned == 0
+}
+
+// bindLoopIndex makes loop invariants independent of the two ways to write a counting loop over a slice:
+// `for i := range xs` has the hidden counter `rangeindex` (index of the last completed iteration, -1 before the first),
+// `for i := 0; i < n; i++` has the counter i (number of completed iterations).  In a counting loop without a hidden
+// counter `rangeindex` stands for i-1; in a range loop whose key variable is k, k at the loop head stands for
+// rangeindex+1 (inside the body both forms agree anyway).  Invariants are auxiliary: these are definitions, not assumptions.
+func (fx *FuncCtx) bindLoopIndex(env *SpecEnv, st *State, b *ssa.BasicBlock) {
+	body := fx.loopBody[b]
+	if body == nil || b.Parent() != fx.fn {
+		return
+	}
+	one := func(v Val, d string) Val {
+		if len(v.C) != 1 {
+			return v
+		}
+		return Val{T: v.T, C: []string{sx(d, v.C[0], "1")}}
+	}
+	if _, has := env.vars["rangeindex"]; !has && fx.mode == ModeInt {
+		// counting loop: condition `c < bound` on a local that the body only ever increments by one
+		if len(b.Instrs) > 0 {
+			if iff, ok := b.Instrs[len(b.Instrs)-1].(*ssa.If); ok {
+				if bo, ok := iff.Cond.(*ssa.BinOp); ok && bo.Op == token.LSS {
+					if ld, ok := bo.X.(*ssa.UnOp); ok && ld.Op == token.MUL {
+						if a, ok := ld.X.(*ssa.Alloc); ok && a.Comment != "" && fx.incrementedByOne(a, body) {
+							if cv, ok := st.cells[a]; ok && isIntegerType(cv.T) {
+								env.vars["rangeindex"] = one(cv, "-")
+							}
+						}
+					}
+				}
+			}
+		}
+		return
+	}
+	// range loop: the key variable is assigned from the hidden counter at the start of the body
+	var hidden *ssa.Alloc
+	for v := range st.cells {
+		if a, ok := v.(*ssa.Alloc); ok && a.Parent() == fx.fn && a.Comment == "rangeindex" {
+			for _, ref := range *a.Referrers() {
+				if in, ok := ref.(ssa.Instruction); ok && in.Block() == b {
+					hidden = a
+				}
+			}
+		}
+	}
+	if hidden == nil || fx.mode != ModeInt {
+		return
+	}
+	for blk := range body {
+		for _, in := range blk.Instrs {
+			sto, ok := in.(*ssa.Store)
+			if !ok {
+				continue
+			}
+			key, ok := sto.Addr.(*ssa.Alloc)
+			ld, ok2 := sto.Val.(*ssa.UnOp)
+			if !ok || !ok2 || ld.Op != token.MUL || ld.X != ssa.Value(hidden) || key.Comment == "" || key.Parent() != fx.fn {
+				continue
+			}
+			// no other store to the key variable inside the loop
+			n := 0
+			for _, ref := range *key.Referrers() {
+				if s2, isStore := ref.(*ssa.Store); isStore && s2.Addr == ssa.Value(key) && body[s2.Block()] {
+					n++
+				}
+			}
+			if hv, okh := st.cells[hidden]; okh && n == 1 {
+				if _, isParam := fx.paramVals[key.Comment]; !isParam {
+					env.vars[key.Comment] = one(hv, "+")
+				}
+			}
+		}
+	}
+}
+
+func (fx *FuncCtx) incrementedByOne(cell ssa.Value, body map[*ssa.BasicBlock]bool) bool {
+	n := 0
+	for b := range body {
+		for _, in := range b.Instrs {
+			st, ok := in.(*ssa.Store)
+			if !ok || st.Addr != cell {
+				continue
+			}
+			n++
+			bo, ok := st.Val.(*ssa.BinOp)
+			if !ok || bo.Op != token.ADD {
+				return false
+			}
+			ld, ok1 := bo.X.(*ssa.UnOp)
+			k, ok2 := bo.Y.(*ssa.Const)
+			if !ok1 || !ok2 || ld.Op != token.MUL || ld.X != cell || k.Value == nil {
+				return false
+			}
+			if v, exact := constant.Int64Val(constant.ToInt(k.Value)); !exact || v != 1 {
+				return false
+			}
+		}
+	}
+	return n == 1
 }
 
 // onlyIncremented: every store to the cell inside the loop body writes (load of the cell) + non-negative constant.
@@ -1109,11 +1230,22 @@ func (fx *FuncCtx) resolveRef(st *State, v ssa.Value, modCells []ssa.Value, body
 
 // allocatedIn: the value denotes an object allocated by an instruction of the given blocks (possibly re-sliced)
 func allocatedIn(v ssa.Value, body map[*ssa.BasicBlock]bool) bool {
+	// instructions of another function than the loop's are those of a helper executed in place by a call inside the loop
+	// body (only such bodies are scanned for effects): allocated during the iteration as well
+	inLoop := func(b *ssa.BasicBlock) bool {
+		if body[b] {
+			return true
+		}
+		for lb := range body {
+			return b.Parent() != lb.Parent()
+		}
+		return false
+	}
 	switch x := v.(type) {
 	case *ssa.Alloc:
-		return body[x.Block()]
+		return inLoop(x.Block())
 	case *ssa.MakeSlice:
-		return body[x.Block()]
+		return inLoop(x.Block())
 	case *ssa.Slice:
 		return allocatedIn(x.X, body)
 	case *ssa.UnOp:
@@ -1127,11 +1259,11 @@ func allocatedIn(v ssa.Value, body map[*ssa.BasicBlock]bool) bool {
 					src = st.Val
 				}
 			}
-			if n == 1 && src != nil && body[a.Block()] {
+			if n == 1 && src != nil && inLoop(a.Block()) {
 				return allocatedIn(src, body)
 			}
 			if n == 1 && src != nil {
-				if in, ok2 := src.(ssa.Instruction); ok2 && body[in.Block()] {
+				if in, ok2 := src.(ssa.Instruction); ok2 && inLoop(in.Block()) {
 					return allocatedIn(src, body)
 				}
 			}
